@@ -170,7 +170,7 @@ def main(prop, tier, seed, replay_path=None):
     stage = dict(name='sync', charts=gc.family_f3(rng, 8 if quick else 60, nmin=3, nmax=5, tmin=3, tmax=5, nev=2, max_oracle=1)
                  + gc.family_terminating(rng, 4 if quick else 12),
                  consts=dict(MaxQ=1, MaxClk=3, Delays={0}, Advances={1, 2}, MaxLevel=5 if quick else 6),
-                 variants=[dict(variant='api', monitor=True)],
+                 variants=[dict(variant='api', monitor=True), dict(variant='api', monitor=True, moving=True)],
                  random=dict(count=100 if quick else 1000, length=16, advances=(1, 2, 5),
                              family=lambda r, kk: gc.family_f3(r, kk, nmin=4, nmax=8)))
     try:
